@@ -308,7 +308,9 @@ func checkImmutable(version string, phase string, ov, nv roView) (fs []finding, 
 	if ov.Routings != nv.Routings {
 		changed = append(changed, "trafficRoutings")
 	}
-	if ov.Style != nv.Style {
+	// the effective style depends on the workload kind: a style change that comes with a changed reference is
+	// attributed to the reference
+	if ov.Style != nv.Style && ov.Ref == nv.Ref {
 		changed = append(changed, "style")
 	}
 	if ov.StepCount != nv.StepCount {
